@@ -18,7 +18,14 @@ class _TypeFixed:
     def join(self, a, b): return a
     def equal(self, a, b): return True
     def widen(self, o, n): return n
-    def decl(self, vd, s): return s
+    def decl(self, vd, s):
+        # a named condition (`const bool wide = ... && type != CONTROL_FLOW;`): remember its three-valued value
+        from valib.core import kids
+        if kids(vd) and "const" in (vd.get("type") or {}).get("qualType", ""):
+            if not hasattr(self, "named"):
+                self.named = {}
+            self.named[vd["id"]] = self.tv(kids(vd)[-1])
+        return s
     def eval(self, e, s): return s
 
     def assume(self, e, t, s):
@@ -36,6 +43,8 @@ class _TypeFixed:
         if v is not None:
             return v
         k = e.get("kind")
+        if k == "DeclRefExpr" and (e.get("referencedDecl") or {}).get("id") in getattr(self, "named", {}):
+            return self.named[e["referencedDecl"]["id"]]
         if k == "BinaryOperator" and e.get("opcode") in ("&&", "||"):
             a, b = self.tv(kids(e)[0]), self.tv(kids(e)[1])
             if e["opcode"] == "&&":
